@@ -171,6 +171,20 @@ func realParse(max uint64, input []byte) (ans string) {
 	return fmt.Sprintf("err %d %s", cnt, strings.Join(es, ","))
 }
 
+// realParseMsg: answer line of `parsemsg <max> <hex>` — the exact err.Error() of grammar.Parse
+func realParseMsg(max uint64, input []byte) (ans string) {
+	defer func() {
+		if r := recover(); r != nil {
+			ans = "PANIC"
+		}
+	}()
+	_, err := grammar.Parse("", input, grammar.MaxExpressions(max))
+	if err == nil {
+		return "ok"
+	}
+	return "err " + hx(err.Error())
+}
+
 // ---------------------------------------------------------------- regexp table
 
 func collectPatterns(e grammar.Expression, out map[string]bool) {
